@@ -24,6 +24,8 @@ def is_tail_op(op):
 def run(F, R, ctx):
     _run9(F, R, ctx)
     classification_rule(F, R)
+    if "jit2" in (F.meta.get("features") or []):
+        native_tail_rule(F, R)
 
 
 def _run9(F, R, ctx):
@@ -238,3 +240,30 @@ def classification_rule(F, R):
                "position (e.g. because the callee is a primitive) — a loop whose tail call goes through apply / eval then "
                "grows by one frame per iteration" % fn.blocks[nb].get("line"), fn.loc(fn.blocks[nb].get("line")), sample=True)
     R.floor("C09.e", "constructions of CallKind::Normal in the classifier", len(set(assigns["Normal"])), 1)
+
+
+def native_tail_rule(F, R):
+    R.rule("C09.f", "a tail call made from compiled code returns to the dispatch loop: a JIT runtime helper that hands the current "
+                    "frame to the callee (calls the frame-reuse routine new_handle_tail_call_closure) does not run anything "
+                    "through a function pointer afterwards (no indirect call reachable from the reuse) — the callee's native "
+                    "code is entered by the dispatch loop, from a native frame that has returned. nc: entering the callee's "
+                    "native code from inside the helper nests one native activation per tail call: the VM frame stack stays "
+                    "flat, the process stack grows linearly and overflows after a few hundred thousand iterations")
+    n = 0
+    for name, fn in sorted(F.fns.items()):
+        if not name.startswith("steel::steel_vm::vm::jit::"):
+            continue
+        reuse = fn.call_blocks(TAIL_REUSE)
+        if not reuse:
+            continue
+        n += 1
+        after = set()
+        for r in reuse:
+            after |= fn.reachable_from(fn.succ(r))
+        ind = [i for i, b in fn.calls() if i in after and (b.get("how") == "p" or b["callee"] == "<fnptr>")]
+        R.inst("C09.f", "%s / nothing is run through a function pointer after the frame was handed over" % fn.short(), not ind,
+               "%s reuses the current frame for the callee (new_handle_tail_call_closure) and then calls through a function "
+               "pointer (line %s): the callee's native code runs nested inside the tail call's helper, one native activation "
+               "per iteration of a tail-recursive loop" % (fn.short(), fn.blocks[ind[0]].get("line") if ind else ""),
+               fn.loc(fn.blocks[ind[0]].get("line") if ind else None), sample=True)
+    R.floor("C09.f", "JIT helpers that hand the frame over to a tail callee", n, 2)
